@@ -68,6 +68,8 @@ type codeCfg struct {
 	// assignment to a field of a local value of a library struct type ("pkgpath.Type.Field") → the Lean function
 	// `set value newFieldValue` that stands for it
 	libFieldSet map[string]string
+	// fields ADDED to the generated structure (name, Lean type): modelling devices, e.g. the world a dispatcher acts on
+	ghostFields [][2]string
 }
 
 type unsupported struct{ why string }
@@ -484,6 +486,17 @@ func (m *mctx) expr(e ast.Expr) string {
 			if _, isSl := tv.Type.Underlying().(*types.Slice); isSl && len(x.Elts) == 0 {
 				return "([] : " + m.g.leanType(tv.Type) + ")"
 			}
+			if _, isMap := tv.Type.Underlying().(*types.Map); isMap {
+				var es []string
+				for _, el := range x.Elts {
+					kv, ok := el.(*ast.KeyValueExpr)
+					if !ok {
+						bad("map literal element")
+					}
+					es = append(es, "("+m.expr(kv.Key)+", "+m.expr(kv.Value)+")")
+				}
+				return "([" + strings.Join(es, ", ") + "] : " + m.g.leanType(tv.Type) + ")"
+			}
 		}
 		bad("composite literal")
 	case *ast.UnaryExpr:
@@ -732,6 +745,32 @@ func (m *mctx) call(c *ast.CallExpr) string {
 			}
 		}
 		bad("call of an indexed value")
+	}
+	// a call of a function VALUE of a named func type T — what a library method returned (`leaf.Handler()(w, req, ps)`) or a
+	// field of the receiver (`r.notFound(w, req)`): `call_T f recv args…`, given by the emitter's prelude
+	if tv, ok := m.g.info.Types[c.Fun]; ok {
+		if n, ok := tv.Type.(*types.Named); ok {
+			if _, isSig := n.Underlying().(*types.Signature); isSig {
+				_, isCall := c.Fun.(*ast.CallExpr)
+				fse, isSel := c.Fun.(*ast.SelectorExpr)
+				isField := false
+				if isSel && m.isRecv(fse.X) {
+					if sel := m.g.info.Selections[fse]; sel != nil && sel.Kind() == types.FieldVal {
+						isField = true
+					}
+				}
+				if isCall || isField {
+					f := m.atom(c.Fun)
+					parts := []string{"call_" + n.Obj().Name(), f, leanIdent(m.recv)}
+					for _, a := range c.Args {
+						parts = append(parts, m.atom(a))
+					}
+					w := leanIdent(m.recv)
+					m.hoist(fmt.Sprintf("let %s := %s;", w, strings.Join(parts, " ")))
+					return "()"
+				}
+			}
+		}
 	}
 	se, ok := c.Fun.(*ast.SelectorExpr)
 	if !ok {
@@ -1179,6 +1218,14 @@ func (m *mctx) store(lhs ast.Expr, val string, ind string) string {
 		}
 	}
 	if ix, ok := lhs.(*ast.IndexExpr); ok {
+		if id, ok := ix.X.(*ast.Ident); ok && !m.isRecv(id) {
+			if tv, ok := m.g.info.Types[ix.X]; ok {
+				if _, isMap := tv.Type.Underlying().(*types.Map); isMap {
+					n := leanIdent(id.Name)
+					return fmt.Sprintf("%slet %s := GoSem.mapSet %s %s %s;\n", ind, n, n, m.atom(ix.Index), atomOf(val))
+				}
+			}
+		}
 		if fs, ok := ix.X.(*ast.SelectorExpr); ok && m.isRecv(fs.X) {
 			if tv, ok := m.g.info.Types[ix.X]; ok {
 				if _, isMap := tv.Type.Underlying().(*types.Map); isMap {
@@ -1225,6 +1272,27 @@ func (m *mctx) assign(x *ast.AssignStmt, ind string) string {
 				m.aliases[id.Name] = f
 				m.aliasPre[id.Name] = pre
 				return ""
+			}
+		}
+	}
+	// v, ok := m[k]
+	if len(x.Lhs) == 2 && len(x.Rhs) == 1 {
+		if ix, ok := x.Rhs[0].(*ast.IndexExpr); ok {
+			if tv, ok := m.g.info.Types[ix.X]; ok {
+				if _, isMap := tv.Type.Underlying().(*types.Map); isMap {
+					mm, kk := m.atom(ix.X), m.atom(ix.Index)
+					m.flush(&b, ind)
+					names := make([]string, 2)
+					for i, l := range x.Lhs {
+						id, ok := l.(*ast.Ident)
+						if !ok {
+							bad("comma-ok map index into a non-identifier")
+						}
+						names[i] = leanIdent(id.Name)
+					}
+					b.WriteString(fmt.Sprintf("%slet (%s, %s) := GoSem.mapGet2 %s %s;\n", ind, names[0], names[1], mm, kk))
+					return b.String()
+				}
 			}
 		}
 	}
@@ -1546,6 +1614,9 @@ func translateType(repo string, cfg codeCfg) (string, error) {
 		for i := 0; i < st.NumFields(); i++ {
 			f := st.Field(i)
 			out.WriteString(fmt.Sprintf("  %s : %s\n", leanIdent(f.Name()), g.fieldType(f.Type())))
+		}
+		for _, gf := range cfg.ghostFields {
+			out.WriteString(fmt.Sprintf("  %s : %s   -- NOT a field of the Go struct: a modelling device (see the emitter)\n", gf[0], gf[1]))
 		}
 		out.WriteString("  deriving Inhabited\n\n")
 		// one environment-call helper per field of interface type
